@@ -88,6 +88,10 @@ def run(c):
             # the call reports that it copied nothing (no such property / key, empty value): the property speaks of the calls
             # that copy; what is demanded here is only that the buffer was left alone
             why = "wrote-although-it-reports-failure" if after != before else None
+            if why is None and fn == "RimeConfigGetString":
+                # the harness stored a string under this key just before (config_set_string succeeded), of whatever length —
+                # the empty one included: the getter has a string to copy, "for every string length"
+                why = "stored-string-not-copied"
             if why:
                 o_fail.setdefault((fn, why), {"fn": fn, "src_hex": s, "src_len": len(src), "n": n, "before": b, "after": a,
                                               "clause": why, "call": "%s(buf, %d) returning false" % (fn, n)})
